@@ -92,6 +92,7 @@ def run(ctx):
     rule_split(ctx, F)
     rule_dsusable(ctx, F)
     rule_optout(ctx, F)
+    rule_algs(ctx, F)
 
 
 def rule_sig(ctx, F):
@@ -1031,3 +1032,59 @@ def rule_optout(ctx, F):
                    "opt-out NSEC3 covers the next-closer name): names below an opt-out span are reported as securely "
                    "non-existent, so an unsigned delegation can be made to vanish with the zone's own NSEC3 records (states "
                    "reaching the site: %s)" % (fn, sorted(sts)), b.where(bi))
+
+
+def rule_algs(ctx, F):
+    """`supported_algorithm` decides whether a delegation is treated as signed at all: an algorithm it refuses makes the
+    zone *insecure*, one it accepts but the crypto backend cannot verify makes it *bogus*.  So the set it accepts -- read
+    off its comparisons over all 256 algorithm numbers -- lies inside what every compiled backend's
+    PublicKey::from_dnskey can build, and contains what all of them can (the source says "needs to match")."""
+    import c03
+    R = "C14.algs"
+    ctx.floor(R, 2)
+
+    def subj(t):
+        t = deep_strip(t)
+        while t[0] in ("field", "deref", "ref"):
+            t = deep_strip(t[1])
+        return (t[0] == "call" and (t[1] or "").endswith("::algorithm")) or t == ("arg", 1)
+    sb = F.one_body(r"^dnssec::validator::base::supported_algorithm$")
+    if not ctx.anchor(R, "validator::base::supported_algorithm", sb):
+        return
+    acc = set()
+    for octs, leaf, path in c03.byte_partition(sb, F, subj):
+        blocks = list(path) + [leaf]
+        val = None
+        for rb, si, kind, term in return_assignments(sb):
+            if rb in blocks:
+                if term is not None and const_value(deep_strip(term)) is not None:
+                    val = bool(const_value(deep_strip(term)))
+                elif kind.startswith("call:") and re.search(r"::eq$", kind):
+                    t = sb.blocks[rb]["t"]
+                    ks = [const_value(deep_strip(sb.term_of_operand(a))) for a in t["args"]]
+                    ks = [k for k in ks if isinstance(k, int) and not isinstance(k, bool)]
+                    if ks:
+                        acc |= ({ks[0]} & octs)
+                        val = False
+        if val is True:
+            acc |= octs
+    backs = {}
+    for name in ("ring", "openssl"):
+        b = F.one_body(r"^crypto::%s::PublicKey::from_dnskey$" % name)
+        if b is None:
+            continue
+        ok = set()
+        for kind, octs in c03.octet_outcomes(b, F, subj).items():
+            if kind.startswith("Ok"):
+                ok |= octs
+        backs[name] = ok
+    if not ctx.anchor(R, "PublicKey::from_dnskey of the compiled crypto backends", bool(backs) and all(backs.values()) and bool(acc), sb.where()):
+        return
+    every = set.intersection(*backs.values())
+    ctx.ob(R, sb, "every algorithm the validator calls supported can be verified by every backend", acc <= every,
+           "supported_algorithm accepts %s, which %s cannot turn into a public key: a correctly signed zone with that algorithm "
+           "is reported bogus instead of insecure" % (sorted(acc - every), [n for n, s_ in backs.items() if acc - s_]))
+    ctx.ob(R, sb, "every algorithm all backends verify is supported", every <= acc,
+           "supported_algorithm accepts %s but every compiled backend (%s) also verifies %s: a correctly signed zone that uses "
+           "one of these (ECDSAP384SHA384 = 14, ED25519 = 15) is treated as unsigned -- its answers come back insecure instead of "
+           "secure, and forged answers are accepted as insecure" % (sorted(acc), ", ".join(sorted(backs)), sorted(every - acc)), sb.where())
